@@ -213,7 +213,7 @@ def r4(ctx, rep, ci):
     mx = method(ctx, ci, "_max_retries_reached")
     for p in enumerate_paths(prog, mx, no_raise):
         setexc = any(ev.kind == "call" and "fut_set_exception" in tags(ev) for ev in p.events)
-        ret = p.end == "return" and p.end_node.value is not None and norm(p.end_node.value) == "self.response_future"
+        ret = p.end == "return" and p.end_node.value is not None and chain(p.end_node.value) == ("self", "response_future")
         rep.check(setexc and ret, "C04.R4", "max-retries-future:%s" % ci.name, mx.loc(), "_max_retries_reached returns an already failed future",
                   bad="_max_retries_reached does not return a future with an exception set: the caller would wait forever")
 
